@@ -243,6 +243,8 @@ class ElementList(MutableSequence):
         :type child: :class:`Element <hl7apy.core.Element>`
         :param child: an instance of an :class:`Element <hl7apy.core.Element>` subclass
         """
+        if any(c is child for c in self.list):
+            self.remove(child)  # the child is moved: it must not be listed twice
         if child.parent != self.element and child.traversal_parent != self.element and \
                 self.element._is_valid_child(child):
             # attach the child here, at the requested position: going through ``child.parent = ...``
